@@ -608,6 +608,8 @@ class EDataType(EClassifier):
     @instanceClassName.setter
     def instanceClassName(self, name):
         self.instanceClassName_ = name
+        if name is None:
+            return  # as in __init__: without a class name, nothing to derive
         default_type = (object, True, None)
         type_, type_as_factory, default = self.transmap.get(name, default_type)
         self.eType = type_
